@@ -7,6 +7,9 @@ import Mathlib.Algebra.BigOperators.Group.Finset.Basic
 import Mathlib.Algebra.BigOperators.Ring.Finset
 import Mathlib.Algebra.Field.Defs
 import Mathlib.Tactic.Ring
+import Mathlib.Tactic.FieldSimp
+import Mathlib.Algebra.CharZero.Defs
+import Mathlib.Algebra.Field.Basic
 import Mathlib.Tactic.Abel
 import Mathlib.Algebra.BigOperators.GroupWithZero.Action
 import Mathlib.Algebra.BigOperators.Group.Finset.Sigma
@@ -350,5 +353,314 @@ theorem tsum_insertAll_fixed (n L k : Nat) (hk : k < n) (x : List α) (F : List 
     ring
 
 end semiring
+
+
+/-- Recursive form of the row test of `teneye` on `a :: rest`: adjacent pairs, and the last
+entry is paired with the first one (`a`). -/
+def apL (a : Nat) : List Nat → Bool
+  | [] => false
+  | [c] => c == a
+  | x :: y :: r => x == y && apL a r
+
+theorem pairedRow_step (h a x y : Nat) (r : List Nat) :
+    pairedRow (2 * (h + 1) + 2) (a :: x :: y :: r) = (x == y && pairedRow (2 * (h + 1)) (a :: r)) := by
+  unfold pairedRow
+  have e1 : (2 * (h + 1) + 2) / 2 = h + 2 := by omega
+  have e2 : (2 * (h + 1)) / 2 = h + 1 := by omega
+  rw [e1, e2, List.range_succ_eq_map, List.range_succ_eq_map (n := h)]
+  simp only [List.map_cons, List.map_map, List.all_cons, List.all_map]
+  have f0 : ((a :: x :: y :: r).getD (if (0 == 0) = true then 2 * (h + 1) + 2 - 1 else 2 * 0 - 1) 0 ==
+      (a :: x :: y :: r).getD (2 * 0) 0) =
+      ((a :: r).getD (if (0 == 0) = true then 2 * (h + 1) - 1 else 2 * 0 - 1) 0 == (a :: r).getD (2 * 0) 0) := by
+    have : 2 * (h + 1) + 2 - 1 = (2 * h + 1) + 1 + 1 := by omega
+    have h2 : 2 * (h + 1) - 1 = 2 * h + 1 := by omega
+    simp [this, h2]
+  rw [f0]
+  have f1 : ((a :: x :: y :: r).getD (if (Nat.succ 0 == 0) = true then 2 * (h + 1) + 2 - 1 else 2 * Nat.succ 0 - 1) 0 ==
+      (a :: x :: y :: r).getD (2 * Nat.succ 0) 0) = (x == y) := by simp
+  rw [f1]
+  have frest : ∀ j, (((fun j => (a :: x :: y :: r).getD (if (j == 0) = true then 2 * (h + 1) + 2 - 1 else 2 * j - 1) 0 ==
+      (a :: x :: y :: r).getD (2 * j) 0) ∘ Nat.succ ∘ Nat.succ) j) =
+      (((fun j => (a :: r).getD (if (j == 0) = true then 2 * (h + 1) - 1 else 2 * j - 1) 0 ==
+      (a :: r).getD (2 * j) 0) ∘ Nat.succ) j) := by
+    intro j
+    have a1 : 2 * (j + 1 + 1) - 1 = (2 * j) + 1 + 1 + 1 := by omega
+    have a2 : 2 * (j + 1 + 1) = (2 * j + 1) + 1 + 1 + 1 := by omega
+    have a3 : 2 * (j + 1) - 1 = (2 * j) + 1 := by omega
+    have a4 : 2 * (j + 1) = (2 * j + 1) + 1 := by omega
+    simp only [Function.comp, Nat.succ_eq_add_one, Nat.add_eq_zero_iff, beq_iff_eq, and_false,
+      one_ne_zero, if_false, a2, a4, List.getD_cons_succ]
+    have b1 : 2 * j + 1 + 1 + 1 + 1 - 1 = (2 * j) + 1 + 1 + 1 := by omega
+    have b2 : 2 * j + 1 + 1 - 1 = (2 * j) + 1 := by omega
+    simp only [b1, b2, List.getD_cons_succ]
+  rw [show ((fun j => (a :: x :: y :: r).getD (if (j == 0) = true then 2 * (h + 1) + 2 - 1 else 2 * j - 1) 0 ==
+      (a :: x :: y :: r).getD (2 * j) 0) ∘ Nat.succ ∘ Nat.succ) = _ from funext frest]
+  cases (x == y) <;> simp [Bool.and_comm, Bool.and_left_comm]
+
+theorem pairedRow_eq_apL (a h : Nat) (r : List Nat) (hr : r.length = 2 * h + 1) :
+    pairedRow (2 * (h + 1)) (a :: r) = apL a r := by
+  induction h generalizing r with
+  | zero =>
+    match r, hr with
+    | [c], _ => simp [pairedRow, apL]
+  | succ h ih =>
+    match r, hr with
+    | x :: y :: r', hr' =>
+      have hl : r'.length = 2 * h + 1 := by simp at hr'; omega
+      have := pairedRow_step h a x y r'
+      rw [show 2 * (h + 1 + 1) = 2 * (h + 1) + 2 by ring, this, ih r' hl, apL]
+
+
+section semiring
+variable [CommSemiring α]
+
+/-- 0/1 value of a test. -/
+def ind (b : Bool) : α := if b then 1 else 0
+
+/-- `Σ_a w a · w' a`. -/
+def dot (n : Nat) (w w' : Nat → α) : α := ∑ a ∈ Finset.range n, w a * w' a
+
+/-- Value of the weighted sum of the row test with first entry `a`: adjacent weights are
+contracted pairwise, the last weight is evaluated at `a`. -/
+def loopEval (n a : Nat) : List (Nat → α) → α
+  | [] => 0
+  | [wl] => wl a
+  | w1 :: w2 :: r => dot n w1 w2 * loopEval n a r
+
+theorem sum_mul_delta (n k : Nat) (hk : k < n) (f : Nat → α) :
+    ∑ a ∈ Finset.range n, f a * delta k a = f k := by
+  rw [← sum_delta_mul n k hk f]
+  apply Finset.sum_congr rfl; intro a _; ring
+
+theorem wsum_apL (n a : Nat) (ha : a < n) (h : Nat) (W : List (Nat → α)) (hW : W.length = 2 * h + 1) :
+    wsum n W (fun t => ind (apL a t)) = loopEval n a W := by
+  induction h generalizing W with
+  | zero =>
+    match W, hW with
+    | [wl], _ =>
+      simp only [wsum, apL, loopEval]
+      have : ∀ c, wl c * (ind (c == a) : α) = wl c * delta a c := by
+        intro c; simp [ind, delta]
+      simp only [this]
+      exact sum_mul_delta n a ha wl
+  | succ h ih =>
+    match W, hW with
+    | w1 :: w2 :: r, hr =>
+      have hl : r.length = 2 * h + 1 := by simp at hr; omega
+      simp only [wsum, apL, loopEval, dot]
+      rw [Finset.sum_mul]
+      apply Finset.sum_congr rfl
+      intro x hx
+      have hx' := Finset.mem_range.1 hx
+      have : ∀ y, w2 y * wsum n r (fun t => (ind (x == y && apL a t) : α)) =
+          delta x y * (w2 y * wsum n r (fun t => ind (apL a t))) := by
+        intro y
+        by_cases hxy : y = x
+        · subst hxy; simp [delta]
+        · have : (x == y) = false := by simpa using fun h => hxy h.symm
+          simp [delta, hxy, this, ind, wsum_zero]
+      simp only [this]
+      rw [sum_delta_mul n x hx', ih r hl]
+      ring
+
+/-- The weighted sum of the row test of `teneye` over all tuples. -/
+theorem wsum_paired (n h : Nat) (w0 : Nat → α) (W : List (Nat → α)) (hW : W.length = 2 * h + 1) :
+    wsum n (w0 :: W) (fun t => ind (pairedRow (2 * (h + 1)) t)) =
+      ∑ a ∈ Finset.range n, w0 a * loopEval n a W := by
+  simp only [wsum]
+  apply Finset.sum_congr rfl
+  intro a ha
+  rw [← wsum_apL n a (Finset.mem_range.1 ha) h W hW]
+  congr 1
+  apply wsum_congr
+  intro t ht
+  rw [pairedRow_eq_apL a h t (by omega)]
+
+theorem loopEval_replicate (n a h : Nat) (x : List α) :
+    loopEval n a (List.replicate (2 * h + 1) (xw x)) = dot n (xw x) (xw x) ^ h * xw x a := by
+  induction h with
+  | zero => simp [loopEval]
+  | succ h ih =>
+    rw [show 2 * (h + 1) + 1 = (2 * h + 1) + 1 + 1 by ring, List.replicate_succ, List.replicate_succ, loopEval, ih]
+    ring
+
+theorem dot_delta_left (n k : Nat) (hk : k < n) (w : Nat → α) : dot n (delta k) w = w k :=
+  sum_delta_mul n k hk w
+
+theorem dot_delta_right (n k : Nat) (hk : k < n) (w : Nat → α) : dot n w (delta k) = w k :=
+  sum_mul_delta n k hk w
+
+theorem mem_insertAll_cons2 {β : Type} (d y1 y2 : β) (R W : List β) :
+    W ∈ insertAll d (y1 :: y2 :: R) ↔
+      W = d :: y1 :: y2 :: R ∨ W = y1 :: d :: y2 :: R ∨ ∃ W'' ∈ insertAll d R, W = y1 :: y2 :: W'' := by
+  simp only [insertAll, List.mem_cons, List.mem_map, List.map_cons, List.map_map]
+  constructor
+  · rintro (h | h | ⟨V, hV, rfl⟩)
+    · exact Or.inl h
+    · exact Or.inr (Or.inl h)
+    · exact Or.inr (Or.inr ⟨V, hV, rfl⟩)
+  · rintro (h | h | ⟨V, hV, rfl⟩)
+    · exact Or.inl h
+    · exact Or.inr (Or.inl h)
+    · exact Or.inr (Or.inr ⟨V, hV, rfl⟩)
+
+theorem length_of_mem_insertAll {β : Type} (a : β) (l W : List β) (h : W ∈ insertAll a l) :
+    W.length = l.length + 1 := by
+  induction l generalizing W with
+  | nil => simp [insertAll] at h; simp [h]
+  | cons b l ih =>
+    simp only [insertAll, List.mem_cons, List.mem_map] at h
+    rcases h with rfl | ⟨V, hV, rfl⟩
+    · simp
+    · simp [ih V hV]
+
+theorem loopEval_insert (n k : Nat) (hk : k < n) (x : List α) (h : Nat) :
+    ∀ W ∈ insertAll (delta k) (List.replicate (2 * h) (xw x)),
+      ∑ a ∈ Finset.range n, xw x a * loopEval n a W = xw x k * dot n (xw x) (xw x) ^ h := by
+  induction h with
+  | zero =>
+    intro W hW
+    simp only [Nat.mul_zero, List.replicate_zero, insertAll, List.mem_singleton] at hW
+    subst hW
+    simp only [loopEval, pow_zero, mul_one]
+    exact sum_mul_delta n k hk (xw x)
+  | succ h ih =>
+    intro W hW
+    rw [show 2 * (h + 1) = 2 * h + 1 + 1 by ring, List.replicate_succ, List.replicate_succ,
+      mem_insertAll_cons2] at hW
+    have hrep : xw x :: List.replicate (2 * h) (xw x) = List.replicate (2 * h + 1) (xw x) :=
+      List.replicate_succ.symm
+    have hsum : ∑ a ∈ Finset.range n, xw x a * (dot n (xw x) (xw x) ^ h * xw x a) =
+        dot n (xw x) (xw x) ^ (h + 1) := by
+      rw [pow_succ]
+      simp only [dot, Finset.mul_sum]
+      apply Finset.sum_congr rfl; intro a _; ring
+    rcases hW with rfl | rfl | ⟨W', hW', rfl⟩
+    · simp only [loopEval, dot_delta_left n k hk, hrep, loopEval_replicate]
+      rw [← hsum, Finset.mul_sum]
+      apply Finset.sum_congr rfl; intro a _; ring
+    · simp only [loopEval, dot_delta_right n k hk, hrep, loopEval_replicate]
+      rw [← hsum, Finset.mul_sum]
+      apply Finset.sum_congr rfl; intro a _; ring
+    · simp only [loopEval]
+      have := ih W' hW'
+      rw [pow_succ, ← mul_assoc, ← this, Finset.sum_mul]
+      apply Finset.sum_congr rfl; intro a _; ring
+
+theorem length_insertAll {β : Type} (a : β) (l : List β) : (insertAll a l).length = l.length + 1 := by
+  induction l with
+  | nil => rfl
+  | cons b l ih => simp [insertAll, ih]
+
+/-- The counting lemma: weighting one position (any position) of the row test with the
+selector of `k` and all other positions with `x` gives `x[k] · (x·x)^h`; summed over the
+`2h+2` positions. -/
+theorem wsum_paired_insert (n k : Nat) (hk : k < n) (x : List α) (h : Nat) :
+    ((insertAll (delta k) (List.replicate (2 * h + 1) (xw x))).map fun W =>
+      wsum n W (fun t => (ind (pairedRow (2 * (h + 1)) t) : α))).sum =
+      (2 * h + 2) • (xw x k * dot n (xw x) (xw x) ^ h) := by
+  rw [List.replicate_succ, insertAll, List.map_cons, List.sum_cons, List.map_map]
+  have h0 : wsum n (delta k :: xw x :: List.replicate (2 * h) (xw x))
+      (fun t => (ind (pairedRow (2 * (h + 1)) t) : α)) = xw x k * dot n (xw x) (xw x) ^ h := by
+    rw [← List.replicate_succ, wsum_paired n h _ _ (by simp), sum_delta_mul n k hk, loopEval_replicate]
+    ring
+  have h1 : ∀ W' ∈ insertAll (delta k) (List.replicate (2 * h) (xw x)),
+      ((fun W => wsum n W (fun t => (ind (pairedRow (2 * (h + 1)) t) : α))) ∘ fun W => xw x :: W) W' =
+        xw x k * dot n (xw x) (xw x) ^ h := by
+    intro W' hW'
+    have hl : W'.length = 2 * h + 1 := by
+      rw [length_of_mem_insertAll _ _ _ hW', List.length_replicate]
+    simp only [Function.comp]
+    rw [wsum_paired n h _ _ hl]
+    exact loopEval_insert n k hk x h W' hW'
+  rw [h0, List.map_congr_left h1, List.map_const', List.sum_replicate, length_insertAll, List.length_replicate]
+  simp only [add_smul, one_smul]
+  abel
+
+end semiring
+
+
+theorem fact_pos (m : Nat) : 0 < fact m := by
+  induction m with
+  | zero => simp [fact]
+  | succ m ih => simp only [fact]; exact Nat.mul_pos (Nat.succ_pos m) ih
+
+section semiring
+variable [CommSemiring α]
+
+theorem xprod_perm (x : List α) {u v : List Nat} (h : u.Perm v) : xprod x u = xprod x v :=
+  (h.map _).prod_eq
+
+theorem cast_filter_length {β : Type} (l : List β) (p : β → Bool) :
+    ((l.filter p).length : α) = (l.map fun t => (ind (p t) : α)).sum := by
+  induction l with
+  | nil => simp
+  | cons b l ih =>
+    by_cases hb : p b = true
+    · simp [List.filter_cons, hb, ind, ih, add_comm]
+    · have : p b = false := by simpa using hb
+      simp [List.filter_cons, this, ind, ih]
+
+theorem list_sum_mul_right {β : Type} (l : List β) (f : β → α) (c : α) :
+    (l.map f).sum * c = (l.map fun b => f b * c).sum := by
+  induction l with
+  | nil => simp
+  | cons b l ih => simp [add_mul, ih]
+
+theorem list_sum_congr {β : Type} (l : List β) (f g : β → α) (h : ∀ b ∈ l, f b = g b) :
+    (l.map f).sum = (l.map g).sum := by
+  rw [List.map_congr_left h]
+
+/-- `pairCount · xprod` summed over all tuples with first entry `k`. -/
+theorem tsum_pairCount (n k h : Nat) (hk : k < n) (x : List α) :
+    tsum n (2 * h + 1) (fun u => (pairCount (2 * (h + 1)) (k :: u) : α) * xprod x u) =
+      (fact (2 * h + 1)) • ((2 * h + 2) • (xw x k * dot n (xw x) (xw x) ^ h)) := by
+  have h1 : ∀ u : List Nat, (pairCount (2 * (h + 1)) (k :: u) : α) * xprod x u =
+      ((perms u).map fun ρ => ((insertAll k ρ).map fun τ => (ind (pairedRow (2 * (h + 1)) τ) : α)).sum * xprod x ρ).sum := by
+    intro u
+    unfold pairCount
+    rw [cast_filter_length, perms, list_sum_flatMap, list_sum_mul_right]
+    apply list_sum_congr
+    intro ρ hρ
+    rw [xprod_perm x (mem_perms.1 hρ)]
+  simp only [h1]
+  rw [tsum_perms, tsum_insertAll_fixed n (2 * h + 1) k hk, wsum_paired_insert n k hk]
+
+end semiring
+
+/-- The identity action: for every even order `m = 2(h+1)` and every size `n`,
+`ttsv(teneye(m, n), x, skip first mode) = (x·x)^(m/2-1) · x`. -/
+theorem teneye_identity [Field α] [CharZero α] (h n : Nat) (x : List α) (hx : x.length = n) :
+    ∃ E y, Dense.teneye (2 * (h + 1)) n = .ok E ∧ E.ttsvFirst x = .ok y ∧ y.length = n ∧
+      ∀ k < n, y.getD k 0 = dot n (xw x) (xw x) ^ h * xw x k := by
+  obtain ⟨E, hE, hs, hw, hg⟩ := teneye_entry (α := α) (2 * (h + 1)) n (by omega) (by omega)
+  obtain ⟨y, hy, hl, hv⟩ := ttsvFirst_spec E x (2 * (h + 1)) n (by omega) hs hw hx
+  refine ⟨E, y, hE, hy, hl, ?_⟩
+  intro k hk
+  rw [hv k hk]
+  have hm1 : 2 * (h + 1) - 1 = 2 * h + 1 := by omega
+  rw [hm1]
+  have hcongr : tsum n (2 * h + 1) (fun u => E.get (k :: u) * xprod x u) =
+      tsum n (2 * h + 1) (fun u => (1 / (fact (2 * (h + 1)) : α)) *
+        ((pairCount (2 * (h + 1)) (k :: u) : α) * xprod x u)) := by
+    apply tsum_congr
+    intro u hu hb
+    rw [hg (k :: u)]
+    · ring
+    · rw [inBounds_replicate_iff]
+      refine ⟨by simp [hu]; omega, ?_⟩
+      intro z hz
+      rcases List.mem_cons.1 hz with rfl | hz
+      · exact hk
+      · exact hb z hz
+  rw [hcongr, tsum_mul_left, tsum_pairCount n k h hk x]
+  have hf : (fact (2 * (h + 1)) : α) = ((2 * h + 2 : Nat) : α) * (fact (2 * h + 1) : α) := by
+    rw [show 2 * (h + 1) = (2 * h + 1) + 1 by ring, fact]
+    push_cast; ring
+  have hne1 : (fact (2 * h + 1) : α) ≠ 0 := Nat.cast_ne_zero.2 (Nat.ne_of_gt (fact_pos _))
+  have hne2 : ((2 * h + 2 : Nat) : α) ≠ 0 := Nat.cast_ne_zero.2 (by omega)
+  rw [hf, nsmul_eq_mul, nsmul_eq_mul]
+  field_simp
+
 
 end Pyttb
